@@ -13,8 +13,10 @@ package c15mux
 
 import (
 	"context"
+	"errors"
 	"fmt"
 	"math"
+	"os"
 	"runtime"
 	"strings"
 	"sync"
@@ -65,12 +67,26 @@ const (
 
 var opNames = [...]string{"DoGet", "DoAdd", "DoUpdate", "DoDelete", "DoUpdOrAddIfNull", "DoUpsertThenLoad", "DoUpsertThenRenewInCache"}
 
-// Op is one call on the group.
+// Op is one call on the group. Every call has its own cancellable context.
 type Op struct {
 	K   int   `json:"k"`   // operation kind
 	Key int   `json:"key"` // index into Config.Keys
 	D   int64 `json:"d"`   // payload
+	// Cancel: when the caller's context ends. 0 never; 1 before the call is made; 2 while
+	// the request is queued behind a gated operation (gated part only; elsewhere like 0);
+	// 3 inside the CancelAt-th (1-based) store callback of this operation: the callback
+	// takes effect (or fails, by the fault plan) and then cancels the context itself.
+	Cancel   int `json:"cancel,omitempty"`
+	CancelAt int `json:"cancel_at,omitempty"`
 }
+
+// cancel modes
+const (
+	cNever = iota
+	cBefore
+	cQueued
+	cInside
+)
 
 // store callbacks
 const (
@@ -97,6 +113,21 @@ type Fault struct {
 type Case struct {
 	Config
 	Ops    []Op    `json:"ops"`
+	Faults []Fault `json:"faults"`
+}
+
+// CaseGate is a controller-owned schedule: Pre runs one call after the other;
+// then Gate is called and its GateAt-th store callback blocks on a harness gate,
+// which occupies that key's worker; the Queued calls are made one at a time, each
+// on its own goroutine and only after the previous one is parked or has
+// returned, so the order in which the group accepted them is known; then the
+// gate is opened.
+type CaseGate struct {
+	Config
+	Pre    []Op    `json:"pre"`
+	Gate   Op      `json:"gate"`
+	GateAt int     `json:"gate_at"`
+	Queued []Op    `json:"queued"`
 	Faults []Fault `json:"faults"`
 }
 
@@ -224,6 +255,22 @@ func genOp(t *rapid.T, nkeys int) Op {
 	return Op{K: opKindGen.Draw(t, "op"), Key: rapid.IntRange(0, nkeys-1).Draw(t, "key"), D: int64(rapid.IntRange(0, 99).Draw(t, "d"))}
 }
 
+// genCancel draws when the operation's context ends: mostly never.
+func genCancel(t *rapid.T, op *Op, queuedMode bool) {
+	switch rapid.IntRange(0, 19).Draw(t, "cancel") {
+	case 0:
+		op.Cancel = cBefore
+	case 1, 2:
+		op.Cancel, op.CancelAt = cInside, rapid.IntRange(1, 2).Draw(t, "cancelat")
+	case 3:
+		if queuedMode {
+			op.Cancel = cQueued
+		} else {
+			op.Cancel, op.CancelAt = cInside, 1
+		}
+	}
+}
+
 // nthGen: which invocation fails - mostly early ones, so that short histories are hit too
 var nthGen = rapid.SampledFrom([]int{0, 0, 0, 1, 1, 1, 2, 2, 3, 3, 4, 5, 6, 8, 11})
 
@@ -243,8 +290,44 @@ func genFaults(t *rapid.T) []Fault {
 func GenSeq(t *rapid.T) Case {
 	c := Case{Config: genConfig(t)}
 	n := rapid.IntRange(1, 30).Draw(t, "nops")
+	// half of the histories have callers whose context ends
+	cancels := rapid.Bool().Draw(t, "cancels")
 	for i := 0; i < n; i++ {
-		c.Ops = append(c.Ops, genOp(t, len(c.Keys)))
+		op := genOp(t, len(c.Keys))
+		if cancels {
+			genCancel(t, &op, false)
+		}
+		c.Ops = append(c.Ops, op)
+	}
+	c.Faults = genFaults(t)
+	return c
+}
+
+func GenGate(t *rapid.T) CaseGate {
+	c := CaseGate{Config: genConfig(t)}
+	nk := len(c.Keys)
+	c.Gate = genOp(t, nk)
+	gk := c.Gate.Key
+	// most operations go to the gated key: that is where acceptance order matters
+	nearKey := func(op *Op) {
+		if rapid.IntRange(0, 9).Draw(t, "samekey") < 6 {
+			op.Key = gk
+		}
+	}
+	for i, n := 0, rapid.IntRange(0, 3).Draw(t, "npre"); i < n; i++ {
+		op := genOp(t, nk)
+		nearKey(&op)
+		c.Pre = append(c.Pre, op)
+	}
+	c.GateAt = rapid.SampledFrom([]int{1, 1, 1, 1, 2}).Draw(t, "gateat")
+	if rapid.IntRange(0, 7).Draw(t, "gatecancel") == 0 {
+		c.Gate.Cancel, c.Gate.CancelAt = cInside, c.GateAt
+	}
+	for i, n := 0, rapid.IntRange(1, 4).Draw(t, "nqueued"); i < n; i++ {
+		op := genOp(t, nk)
+		nearKey(&op)
+		genCancel(t, &op, true)
+		c.Queued = append(c.Queued, op)
 	}
 	c.Faults = genFaults(t)
 	return c
@@ -257,7 +340,9 @@ func GenConc(t *rapid.T) CaseConc {
 		n := rapid.IntRange(3, 10).Draw(t, "nops")
 		var ops []Op
 		for j := 0; j < n; j++ {
-			ops = append(ops, genOp(t, len(c.Keys)))
+			op := genOp(t, len(c.Keys))
+			genCancel(t, &op, false)
+			ops = append(ops, op)
 		}
 		c.Callers = append(c.Callers, ops)
 	}
@@ -325,12 +410,25 @@ type opRec struct {
 	caller int
 	op     Op
 	kid    string
+	ctx    context.Context
+	cancel context.CancelFunc
 	t0, t1 int64 // logical time of call and return (t1 == 0: has not returned)
 	log    []cbEnt
 	v      interface{}
 	err    error
 	pan    string
 	sweep  bool
+	gateAt int  // > 0: the gateAt-th callback of this operation waits for the harness gate
+	early  bool // gated part: it had returned while the gate was still closed
+
+	// the caller's context ended (by the case's plan) when cbAtCancel callbacks of the
+	// operation had completed; written under env.mu
+	cancelled  bool
+	cbAtCancel int
+
+	// set by checkShape
+	complete bool // the documented callback sequence ran to its end
+	effOK    bool // ... and its last callback succeeded (or none was needed)
 }
 
 type histEnt struct {
@@ -341,25 +439,28 @@ type histEnt struct {
 }
 
 type env struct {
-	mu        sync.Mutex
-	vals      map[string]Val
-	hist      map[string][]*histEnt
-	ver       int64
-	tick      int64
-	calls     [nCallbacks]int
-	faults    [nCallbacks]map[int]int
-	inflight  map[string]int
-	yields    int
-	seq       bool // sequential mode: exactly one operation is in progress at any time
-	cur       int  // sequential mode: id of the operation in progress (-1: none)
-	noFaults  bool // final sweep: the fault plan is switched off
-	faultsHit int
-	nfHit     int
-	site, msg string // first violation seen from inside a callback
+	mu          sync.Mutex
+	vals        map[string]Val
+	hist        map[string][]*histEnt
+	ver         int64
+	tick        int64
+	calls       [nCallbacks]int
+	faults      [nCallbacks]map[int]int
+	inflight    map[string]int
+	yields      int
+	seq         bool // sequential mode: exactly one operation is in progress at any time
+	cur         int  // sequential mode: id of the operation in progress (-1: none)
+	noFaults    bool // final sweep: the fault plan is switched off
+	faultsHit   int
+	nfHit       int
+	gate        chan struct{}
+	gateReached bool
+	gateCb      int
+	site, msg   string // first violation seen from inside a callback
 }
 
 func newEnv(faults []Fault) *env {
-	e := &env{vals: map[string]Val{}, hist: map[string][]*histEnt{}, inflight: map[string]int{}, cur: -1}
+	e := &env{vals: map[string]Val{}, hist: map[string][]*histEnt{}, inflight: map[string]int{}, cur: -1, gate: make(chan struct{})}
 	for i := range e.faults {
 		e.faults[i] = map[int]int{}
 	}
@@ -388,6 +489,18 @@ func (e *env) now() int64 {
 	return t
 }
 
+// cancelRec ends the context of rec's caller (the case's plan says so).
+func (e *env) cancelRec(rec *opRec) {
+	e.mu.Lock()
+	if !rec.cancelled {
+		e.tick++
+		rec.cancelled = true
+		rec.cbAtCancel = len(rec.log)
+	}
+	e.mu.Unlock()
+	rec.cancel()
+}
+
 // install makes v the store's value of kid (mu held).
 func (e *env) install(kid string, d int64, by *opRec) Val {
 	e.retire(kid, by)
@@ -413,11 +526,12 @@ func (e *env) invoke(rec *opRec, cb int, argOK bool, hasPre bool, pre interface{
 	e.mu.Lock()
 	e.tick++
 	ent.tb = e.tick
+	nth := len(rec.log) + 1 // which callback of its operation this is
 	if e.seq && e.cur != rec.id {
 		e.note("callback-outside-op", "the %s callback of op %d (%s %s) ran while op %d was the one in progress", cbNames[cb], rec.id, opNames[rec.op.K], kid, e.cur)
 	}
-	if rec.t1 != 0 {
-		e.note("callback-outside-op", "the %s callback of op %d (%s %s) ran after the operation had returned to its caller", cbNames[cb], rec.id, opNames[rec.op.K], kid)
+	if rec.t1 != 0 && !rec.cancelled {
+		e.note("callback-outside-op", "the %s callback of op %d (%s %s) ran after the operation had returned to its caller, whose context had not ended", cbNames[cb], rec.id, opNames[rec.op.K], kid)
 	}
 	e.inflight[kid]++
 	if e.inflight[kid] > 1 {
@@ -438,8 +552,15 @@ func (e *env) invoke(rec *opRec, cb int, argOK bool, hasPre bool, pre interface{
 			ent.preOK = true
 		}
 	}
+	gated := rec.gateAt > 0 && nth == rec.gateAt
+	if gated {
+		e.gateReached, e.gateCb = true, cb
+	}
 	e.mu.Unlock()
 
+	if gated {
+		<-e.gate // the controller owns the schedule: this worker is now occupied
+	}
 	for i := 0; i < e.yields; i++ {
 		runtime.Gosched()
 	}
@@ -491,7 +612,17 @@ func (e *env) invoke(rec *opRec, cb int, argOK bool, hasPre bool, pre interface{
 	e.inflight[kid]--
 	ent.te = e.tick
 	rec.log = append(rec.log, ent)
+	// the caller's context ends inside this callback, after it took effect
+	endCtx := rec.op.Cancel == cInside && rec.op.CancelAt == nth && !rec.cancelled && !rec.sweep
+	if endCtx {
+		e.tick++
+		rec.cancelled = true
+		rec.cbAtCancel = len(rec.log)
+	}
 	e.mu.Unlock()
+	if endCtx {
+		rec.cancel()
+	}
 	if ent.ok {
 		if cb == cbDel {
 			return nil, nil
@@ -512,6 +643,7 @@ type harness struct {
 	env    *env
 	ctx    context.Context
 	cancel context.CancelFunc
+	opened bool
 }
 
 func validConfig(c Config) bool {
@@ -536,6 +668,12 @@ func validConfig(c Config) bool {
 	return true
 }
 
+func validOp(op Op, nkeys int) bool {
+	return op.K >= 0 && op.K < nOpKinds && op.Key >= 0 && op.Key < nkeys
+}
+
+// newHarness starts the group. A vkit.Sched that is to cover the worker
+// goroutines must have been created before.
 func newHarness(c Config, faults []Fault) *harness {
 	h := &harness{cfg: c, env: newEnv(faults)}
 	for _, k := range c.Keys {
@@ -559,15 +697,25 @@ func newHarness(c Config, faults []Fault) *harness {
 	return h
 }
 
+func (h *harness) openGate() {
+	if !h.opened {
+		h.opened = true
+		close(h.env.gate)
+	}
+}
+
 // stop ends the worker goroutines and waits for them.
 func (h *harness) stop() {
+	h.openGate()
 	h.cancel()
 	h.grp.Stop()
 	_ = h.grp.WaitStop(context.Background())
 }
 
 func (h *harness) newRec(id, caller int, op Op) *opRec {
-	return &opRec{id: id, caller: caller, op: op, kid: h.kids[op.Key]}
+	r := &opRec{id: id, caller: caller, op: op, kid: h.kids[op.Key]}
+	r.ctx, r.cancel = context.WithCancel(h.ctx)
+	return r
 }
 
 // do executes rec's operation on the calling goroutine.
@@ -599,6 +747,9 @@ func (h *harness) do(rec *opRec) {
 		_, err := e.invoke(rec, cbDel, isKey(d), false, nil)
 		return err
 	}
+	if rec.op.Cancel == cBefore && !rec.sweep {
+		e.cancelRec(rec)
+	}
 	rec.t0 = e.now()
 	defer func() {
 		if r := recover(); r != nil {
@@ -609,28 +760,33 @@ func (h *harness) do(rec *opRec) {
 		rec.t1 = e.tick
 		e.mu.Unlock()
 	}()
+	var v interface{}
+	var err error
 	switch rec.op.K {
 	case opGet:
-		rec.v, rec.err = h.grp.DoGet(h.ctx, load, k)
+		v, err = h.grp.DoGet(rec.ctx, load, k)
 	case opAdd:
-		rec.v, rec.err = h.grp.DoAdd(h.ctx, add, k, data)
+		v, err = h.grp.DoAdd(rec.ctx, add, k, data)
 	case opUpdate:
-		rec.v, rec.err = h.grp.DoUpdate(h.ctx, load, upd, k, data)
+		v, err = h.grp.DoUpdate(rec.ctx, load, upd, k, data)
 	case opDelete:
-		rec.v, rec.err = h.grp.DoDelete(h.ctx, del, k)
+		v, err = h.grp.DoDelete(rec.ctx, del, k)
 	case opUpdOrAdd:
-		rec.v, rec.err = h.grp.DoUpdOrAddIfNull(h.ctx, load, upd, add, isNotFound, k, data)
+		v, err = h.grp.DoUpdOrAddIfNull(rec.ctx, load, upd, add, isNotFound, k, data)
 	case opUpsertLoad:
-		rec.v, rec.err = h.grp.DoUpsertThenLoad(h.ctx, ups, load, k, data)
+		v, err = h.grp.DoUpsertThenLoad(rec.ctx, ups, load, k, data)
 	case opUpsertRenew:
-		rec.v, rec.err = h.grp.DoUpsertThenRenewInCache(h.ctx, ups, k, data)
+		v, err = h.grp.DoUpsertThenRenewInCache(rec.ctx, ups, k, data)
 	}
+	e.mu.Lock() // (the worker may still be appending to rec.log when the caller's context ended)
+	rec.v, rec.err = v, err
+	e.mu.Unlock()
 }
 
-// ---- the per-operation oracle (both modes) ---------------------------------------------
+// ---- the per-operation oracle (all parts) ----------------------------------------------
 
 const (
-	obsUnknown  = iota // the operation does not reveal whether the key was cached (delete)
+	obsUnknown  = iota // the operation does not reveal whether the key was cached
 	obsCached          // it took the cached path
 	obsUncached        // it took the uncached path
 )
@@ -641,7 +797,11 @@ func (r *opRec) String() string {
 	if r.op.K != opGet && r.op.K != opDelete {
 		fmt.Fprintf(&b, ", d=%d", r.op.D)
 	}
-	b.WriteString(") callbacks [")
+	b.WriteString(")")
+	if r.cancelled {
+		fmt.Fprintf(&b, " [caller's context ended after %d callback(s)]", r.cbAtCancel)
+	}
+	b.WriteString(" callbacks [")
 	for i, en := range r.log {
 		if i > 0 {
 			b.WriteString(", ")
@@ -681,13 +841,24 @@ func (r *opRec) resultIs(en *cbEnt) bool {
 	return r.v == nil && ok && ce == en.err
 }
 
-// checkShape judges one completed operation by the documentation of its Do*
+// ctxResult: the caller received the error of its own (ended) context.
+func (r *opRec) ctxResult() bool {
+	return r.cancelled && r.v == nil && r.err != nil && errors.Is(r.err, context.Canceled)
+}
+
+// checkShape judges one finished operation by the documentation of its Do*
 // function: which callbacks ran, in which order, with which existing item, and
-// that the result is the one of the operation's own last callback. It returns
-// which path (cached / uncached) the operation revealed.
+// that the caller got the result of the operation's own last callback. A caller
+// whose context ended may get the context's error instead, and from that moment
+// on the operation may be abandoned between two callbacks (its effect on the
+// store is then whatever the callbacks that ran did). It returns which path
+// (cached / uncached) the operation revealed and sets r.complete / r.effOK.
 func checkShape(r *opRec) (obs int, site, msg string) {
 	bad := func(site, f string, a ...any) (int, string, string) {
 		return obsUnknown, site, fmt.Sprintf(f, a...) + " :: " + r.String()
+	}
+	wrongSeq := func(want string) (int, string, string) {
+		return bad("callback-sequence", "callbacks do not follow the documented order (%s)", want)
 	}
 	L := r.log
 	for i := range L {
@@ -695,152 +866,172 @@ func checkShape(r *opRec) (obs int, site, msg string) {
 		if !en.argOK {
 			return bad("callback-args", "the %s callback did not receive the caller's key/data", cbNames[en.cb])
 		}
-		if en.tb < r.t0 || (r.t1 != 0 && en.te > r.t1) {
+		if en.tb < r.t0 || (r.t1 != 0 && en.te > r.t1 && !r.cancelled) {
 			return bad("callback-outside-op", "the %s callback ran outside the operation's call..return window", cbNames[en.cb])
 		}
 		if en.hasPre && !en.preNil && !en.preOK {
 			return bad("coherence-existing-item", "the existing item handed to the %s callback is not what the store holds for the key (%s)", cbNames[en.cb], en.cur)
 		}
 	}
-	seqIs := func(cbs ...int) bool {
-		if len(L) != len(cbs) {
-			return false
-		}
-		for i, c := range cbs {
-			if L[i].cb != c {
-				return false
+	r.complete, r.effOK = false, false
+	abandonedAtStart := r.cancelled && r.cbAtCancel == 0 && r.ctxResult()
+	if len(L) == 0 {
+		switch r.op.K {
+		case opGet:
+			if _, isVal := r.v.(Val); isVal && r.err == nil {
+				r.complete, r.effOK = true, true
+				return obsCached, "", ""
 			}
+			if abandonedAtStart {
+				return obsUnknown, "", ""
+			}
+			return bad("coherence", "DoGet did not consult load, so it answered from the cache, but what it returned is not a value the store ever produced")
+		case opAdd:
+			if r.v == nil && r.err == mux.ErrDupKey {
+				r.complete, r.effOK = true, true
+				return obsCached, "", ""
+			}
+			if abandonedAtStart {
+				return obsUnknown, "", ""
+			}
+			return bad("add-result", "DoAdd called no store function, which is only right for a cached key, but did not return ErrDupKey")
 		}
-		return true
+		if abandonedAtStart {
+			return obsUnknown, "", ""
+		}
+		return wrongSeq("at least one store callback")
 	}
-	wrongSeq := func(want string) (int, string, string) {
-		return bad("callback-sequence", "callbacks do not follow the documented order (%s)", want)
-	}
-	// the existing item of an update that follows a load is the loaded value
-	loadedPre := func(ld, up *cbEnt) bool {
-		pv, ok := up.pre.(Val)
-		return !up.preNil && ok && pv == ld.out
-	}
+	// the first callback shows the path, its outcome fixes the rest
+	var want []int
+	var wantDoc string
 	obs = obsUnknown
+	f := &L[0]
 	switch r.op.K {
 	case opGet:
-		switch {
-		case len(L) == 0:
-			if _, isVal := r.v.(Val); !isVal || r.err != nil {
-				return bad("coherence", "DoGet did not consult load, so it answered from the cache, but what it returned is not a value the store ever produced")
-			}
-			return obsCached, "", ""
-		case seqIs(cbLoad):
-			obs = obsUncached
-		default:
-			return wrongSeq("cached: none; uncached: load")
-		}
+		obs, want, wantDoc = obsUncached, []int{cbLoad}, "cached: none; uncached: load"
 	case opAdd:
-		switch {
-		case len(L) == 0:
-			if r.v != nil || r.err != mux.ErrDupKey {
-				return bad("add-result", "DoAdd called no store function, which is only right for a cached key, but did not return ErrDupKey")
-			}
-			return obsCached, "", ""
-		case seqIs(cbAdd):
-			obs = obsUncached
-		default:
-			return wrongSeq("cached: none; uncached: add")
-		}
+		obs, want, wantDoc = obsUncached, []int{cbAdd}, "cached: none; uncached: add"
+	case opDelete:
+		want, wantDoc = []int{cbDel}, "delete"
 	case opUpdate, opUpdOrAdd:
 		switch {
-		case len(L) >= 1 && L[0].cb == cbUpd:
-			if len(L) != 1 || L[0].preNil {
-				return wrongSeq("cached: update(existing = cached item)")
-			}
-			obs = obsCached
-		case len(L) >= 1 && L[0].cb == cbLoad:
-			obs = obsUncached
-			switch {
-			case L[0].ok:
-				if !seqIs(cbLoad, cbUpd) || !loadedPre(&L[0], &L[1]) {
-					return wrongSeq("uncached, key in store: load, update(existing = loaded item)")
-				}
-			case r.op.K == opUpdOrAdd && L[0].err.NotFound:
-				if !seqIs(cbLoad, cbAdd) {
-					return wrongSeq("uncached, load says not found: load, add")
-				}
-			default:
-				if !seqIs(cbLoad) {
-					return wrongSeq("uncached, load fails: load only")
-				}
-			}
+		case f.cb == cbUpd && !f.preNil:
+			obs, want, wantDoc = obsCached, []int{cbUpd}, "cached: update(existing = cached item)"
+		case f.cb == cbLoad && f.ok:
+			obs, want, wantDoc = obsUncached, []int{cbLoad, cbUpd}, "uncached, key in store: load, update(existing = loaded item)"
+		case f.cb == cbLoad && r.op.K == opUpdOrAdd && f.err.NotFound:
+			obs, want, wantDoc = obsUncached, []int{cbLoad, cbAdd}, "uncached, load says not found: load, add"
+		case f.cb == cbLoad:
+			obs, want, wantDoc = obsUncached, []int{cbLoad}, "uncached, load fails: load only"
 		default:
-			return wrongSeq("cached: update; uncached: load first")
-		}
-	case opDelete:
-		if !seqIs(cbDel) {
-			return wrongSeq("delete")
+			return wrongSeq("cached: update(existing = cached item); uncached: load first")
 		}
 	case opUpsertLoad:
 		switch {
-		case len(L) >= 1 && L[0].cb == cbUpsert && !L[0].preNil:
-			if len(L) != 1 {
-				return wrongSeq("cached: upsert(existing = cached item)")
-			}
-			obs = obsCached
-		case len(L) >= 1 && L[0].cb == cbUpsert:
-			obs = obsUncached
-			if L[0].ok && !seqIs(cbUpsert, cbLoad) || !L[0].ok && !seqIs(cbUpsert) {
-				return wrongSeq("uncached: upsert(existing = nil), then load if the upsert succeeded")
-			}
+		case f.cb == cbUpsert && !f.preNil:
+			obs, want, wantDoc = obsCached, []int{cbUpsert}, "cached: upsert(existing = cached item)"
+		case f.cb == cbUpsert && f.ok:
+			obs, want, wantDoc = obsUncached, []int{cbUpsert, cbLoad}, "uncached: upsert(existing = nil), then load"
+		case f.cb == cbUpsert:
+			obs, want, wantDoc = obsUncached, []int{cbUpsert}, "uncached, upsert fails: upsert only"
 		default:
 			return wrongSeq("upsert first")
 		}
 	case opUpsertRenew:
-		if !seqIs(cbUpsert) {
-			return wrongSeq("upsert only")
-		}
-		if L[0].preNil {
-			obs = obsUncached
-		} else {
-			obs = obsCached
+		want, wantDoc = []int{cbUpsert}, "upsert only"
+		if f.cb == cbUpsert {
+			if f.preNil {
+				obs = obsUncached
+			} else {
+				obs = obsCached
+			}
 		}
 	}
-	if !r.resultIs(&L[len(L)-1]) {
-		return bad("result", "the caller did not receive the result of its own last store callback")
+	if len(L) > len(want) {
+		return wrongSeq(wantDoc)
+	}
+	for i := range L {
+		if L[i].cb != want[i] {
+			return wrongSeq(wantDoc)
+		}
+	}
+	if len(L) == 2 && L[1].cb == cbUpd {
+		// the existing item of an update that follows a load is the loaded value
+		if pv, ok := L[1].pre.(Val); L[1].preNil || !ok || pv != L[0].out {
+			return wrongSeq(wantDoc)
+		}
+	}
+	last := &L[len(L)-1]
+	if len(L) < len(want) {
+		// stopped between two callbacks: only a caller whose context had ended by then may be abandoned
+		if !r.cancelled || len(L) < r.cbAtCancel {
+			return wrongSeq(wantDoc + "; it stopped early")
+		}
+		if !r.ctxResult() {
+			return bad("result", "the operation was abandoned after its caller's context ended, but the caller got something else than its context's error")
+		}
+		return obs, "", ""
+	}
+	r.complete, r.effOK = true, last.ok
+	if !r.resultIs(last) && !r.ctxResult() {
+		return bad("result", "the caller received neither the result of its own last store callback nor (its context having ended) its context's error")
 	}
 	return obs, "", ""
 }
 
-// ---- sequential histories ----------------------------------------------------------------
+// ---- what can be known about the cache ----------------------------------------------------
 
 const (
 	sNo    = iota // certainly not cached
 	sMaybe        // the statement allows both
-	sYes          // certainly cached
+	sYesWT        // certainly cached because the group is a write-through cache: a successful operation left it there
+	sYes          // certainly cached: an operation that writes nothing has just found it there
 )
 
-// seqModel is what the statement lets the harness know about the cache: per key
-// whether it certainly is / certainly is not / may be cached.
+// model is what the statement lets the harness know about the cache, per key.
 //
-//   - certainly cached comes from observation only: an operation that does not
-//     write (DoGet served without load, DoAdd rejected without a store call) has
-//     just found the key in the cache. That a successful write leaves the key
-//     cached is the code's write-through policy, not part of the statement (a
-//     cache that invalidates on write is coherent too), so after a write the key
-//     "may be" cached.
-//   - certainly not cached: nothing was cached yet, a successful delete, or an
-//     operation that found the key uncached and obtained no value it could cache.
-//   - it assumes nothing about which keys share a worker (any subset may share
-//     one LRU), only that a map keeps an entry until it is deleted and that an LRU
-//     of capacity c evicts nothing while at most c keys can be in it.
-type seqModel struct {
+//   - sYes comes from observation: DoGet served without load, DoAdd rejected
+//     without a store call.
+//   - sYesWT is the write-through policy the property is named after ("renew
+//     cache" in every handler's documentation): after an operation whose last
+//     store callback succeeded the key is cached - for get / add / update /
+//     update-or-add / upsert-then-load on either path, for upsert-then-renew only
+//     when it found the key cached. A failure of these two kinds of certainty is
+//     reported under different sites.
+//   - sNo: nothing was cached yet, a successful delete, or an operation that found
+//     the key uncached and obtained no value it could cache.
+//   - it assumes nothing about which keys share a worker (any subset may share one
+//     LRU), only that a map keeps an entry until it is deleted and that an LRU of
+//     capacity c evicts nothing while at most c keys can be in it.
+//   - a caller whose context ended is no exception: what its operation's
+//     callbacks did counts exactly like for any other caller.
+type model struct {
 	cfg     Config
 	st      []int
-	deleted []bool // certainly not cached because of a successful delete
-	wt      []bool // label only: under the write-through policy of the code the key would be cached now
+	deleted []bool          // certainly not cached because of a successful delete
+	wt      []bool          // label only: the key would be cached now had nothing been evicted
+	track   map[string]*Val // what the store holds per key, followed through the callback logs in judging order
+	// gated phase: the real order of operations on different keys is not the judging order,
+	// so an LRU that may evict makes every certainty about "cached" void after each step
+	voidAfterEach bool
 }
 
-// inserted: the key may have been put into the cache by an operation that found
-// it uncached, which in an LRU may have evicted any other key.
-func (m *seqModel) inserted(key int) {
-	m.st[key] = sMaybe
+func newModel(h *harness) *model {
+	n := len(h.keys)
+	m := &model{cfg: h.cfg, st: make([]int, n), deleted: make([]bool, n), wt: make([]bool, n), track: map[string]*Val{}}
+	h.env.mu.Lock()
+	for k, v := range h.env.vals {
+		v := v
+		m.track[k] = &v
+	}
+	h.env.mu.Unlock()
+	return m
+}
+
+// inserted: the key was (st: may have been) put into the cache by an operation
+// that found it uncached, which in an LRU may have evicted any other key.
+func (m *model) inserted(key, st int) {
+	m.st[key] = st
 	m.deleted[key] = false
 	if !m.cfg.LRU {
 		return
@@ -853,14 +1044,14 @@ func (m *seqModel) inserted(key int) {
 	}
 	if int64(n) > m.cfg.Cap {
 		for i := range m.st {
-			if i != key && m.st[i] == sYes {
+			if i != key && m.st[i] >= sYesWT {
 				m.st[i] = sMaybe
 			}
 		}
 	}
 }
 
-func (m *seqModel) set(key, st int) {
+func (m *model) set(key, st int) {
 	m.st[key] = st
 	if st != sNo {
 		m.deleted[key] = false
@@ -876,32 +1067,57 @@ func anyOK(L []cbEnt) bool {
 	return false
 }
 
-// after updates the knowledge with a completed operation.
-func (m *seqModel) after(r *opRec, obs int) {
+// after updates the knowledge with a finished operation.
+func (m *model) after(r *opRec, obs int) {
 	key := r.op.Key
-	ok := r.err == nil
+	for i := range r.log {
+		if en := &r.log[i]; en.ok {
+			if en.cb == cbDel {
+				delete(m.track, r.kid)
+			} else {
+				v := en.out
+				m.track[r.kid] = &v
+			}
+		}
+	}
 	switch {
-	case r.op.K == opDelete && ok:
+	case r.op.K == opDelete && len(r.log) == 0:
+		// never ran
+	case r.op.K == opDelete && r.effOK:
 		m.set(key, sNo)
 		m.deleted[key] = true
 		m.wt[key] = false
 	case r.op.K == opDelete:
-		if m.st[key] == sYes {
+		if m.st[key] >= sYesWT {
 			m.set(key, sMaybe) // an implementation may drop the entry when the delete fails
 		}
 	case obs == obsCached && (r.op.K == opGet || r.op.K == opAdd):
-		m.set(key, sYes) // found in the cache by an operation that writes nothing
+		m.set(key, sYes)
+		m.wt[key] = true
+	case obs == obsCached && r.effOK:
+		m.set(key, sYesWT) // renewed in place: nothing is evicted
 		m.wt[key] = true
 	case obs == obsCached:
-		m.set(key, sMaybe) // renewed, kept or dropped: all coherent
+		m.set(key, sMaybe) // keeping or dropping the old entry are both coherent
 		m.wt[key] = true
-	case obs == obsUncached && (ok || anyOK(r.log)):
-		// the operation obtained a current value of the key: it may have cached it
-		m.inserted(key)
-		m.wt[key] = ok && r.op.K != opUpsertRenew
+	case obs == obsUncached && r.effOK && r.op.K != opUpsertRenew:
+		m.inserted(key, sYesWT)
+		m.wt[key] = true
+	case obs == obsUncached && (r.effOK || anyOK(r.log)):
+		// upsert-then-renew is documented not to fill the cache; an abandoned or failed operation
+		// obtained a current value before it stopped: caching it would be coherent in both cases
+		m.inserted(key, sMaybe)
+		m.wt[key] = false
 	case obs == obsUncached:
 		m.set(key, sNo)
 		m.wt[key] = false
+	}
+	if m.voidAfterEach {
+		for i := range m.st {
+			if m.st[i] >= sYesWT {
+				m.st[i] = sMaybe
+			}
+		}
 	}
 }
 
@@ -951,7 +1167,7 @@ func labelOp(res *vkit.Result, r *opRec, obs int) {
 			res.Class("add-on-cached-key")
 		}
 	case opDelete:
-		if r.err == nil {
+		if r.effOK {
 			res.Class("successful-delete")
 		}
 	}
@@ -960,19 +1176,146 @@ func labelOp(res *vkit.Result, r *opRec, obs int) {
 			res.Class("fault-in-" + cbNames[r.log[i].cb])
 		}
 	}
+	if r.cancelled {
+		switch {
+		case r.cbAtCancel == 0 && len(r.log) > 0:
+			res.Class("context-ended-before-the-operation-ran")
+		case r.cbAtCancel == 0:
+			res.Class("context-ended-operation-ran-no-callback")
+		default:
+			res.Class("context-ended-inside-a-callback")
+		}
+		if anyOK(r.log) && (r.op.K != opGet) {
+			res.Class("write-committed-for-a-caller-whose-context-ended")
+			if obs == obsCached {
+				res.Class("cached-key-written-for-a-caller-whose-context-ended")
+			}
+		}
+		if r.ctxResult() {
+			res.Class("caller-got-its-context-error")
+		}
+	}
 }
 
+// judge applies every oracle to one finished operation, in the order in which
+// the operations of its key were accepted, and updates the knowledge.
+// writeThrough: VERIF_C15_NO_WT=1 switches the two sites that rest on the
+// write-through policy off (certainty by observation only), to see what the
+// statement alone still catches.
+var writeThrough = os.Getenv("VERIF_C15_NO_WT") == ""
+
+type judge struct {
+	res *vkit.Result
+	h   *harness
+	m   *model
+}
+
+func (j *judge) one(r *opRec) bool {
+	res, h, m, e := j.res, j.h, j.m, j.h.env
+	e.mu.Lock()
+	site, msg := e.site, e.msg
+	e.mu.Unlock()
+	if r.pan != "" {
+		res.Failf("op-panic", "%s(key %s, hash %d) on a group of %d workers panicked: %s", opNames[r.op.K], r.kid, h.hashes[r.op.Key], h.cfg.Workers, r.pan)
+		return false
+	}
+	if site != "" {
+		res.Failf(site, "%s :: %s", msg, r)
+		return false
+	}
+	obs, site, msg := checkShape(r)
+	if site != "" {
+		res.Failf(site, "%s", msg)
+		return false
+	}
+	key := r.op.Key
+	if r.op.K == opGet && obs == obsCached {
+		v := r.v.(Val)
+		if r.early {
+			// a read served from the cache while an earlier accepted operation was still in
+			// flight: "after the last completed operation" is the reference
+			if v.K != r.kid || !e.valueInWindow(r.kid, &v, r.t0, r.t1) {
+				res.Failf("coherence", "DoGet answered from the cache with %+v, which the store did not hold for the key between the call and the return; store history of the key:%s :: %s", v, e.history(r.kid), r)
+				return false
+			}
+			res.Class("cached-read-while-earlier-operation-in-flight")
+			return true // a pure read of the cache: it tells nothing about the order of writes
+		}
+		if cur := m.track[r.kid]; cur == nil || v != *cur {
+			held := "nothing"
+			if cur != nil {
+				held = fmt.Sprintf("%+v", *cur)
+			}
+			res.Failf("coherence", "DoGet answered from the cache with %+v but the store holds %s for the key :: %s", v, held, r)
+			return false
+		}
+	}
+	switch {
+	case obs == obsCached && m.st[key] == sNo && m.deleted[key]:
+		res.Failf("delete-leaves-cache-entry", "the key was deleted successfully and not written since, yet the next operation found it in the cache :: %s", r)
+		return false
+	case obs == obsCached && m.st[key] == sNo:
+		res.Failf("phantom-cache-entry", "no operation accepted before this one can have put the key into the cache, yet the operation found it there :: %s", r)
+		return false
+	case obs == obsUncached && m.st[key] == sYes && r.op.K == opAdd:
+		res.Failf("add-on-cached-key", "the previous operation on the key found it in the cache and nothing can have evicted it since, but DoAdd called the store instead of rejecting the duplicate :: %s", r)
+		return false
+	case obs == obsUncached && m.st[key] == sYes:
+		res.Failf("cache-entry-lost", "the previous operation on the key found it in the cache and nothing can have evicted or deleted it since, but this operation treated it as uncached :: %s", r)
+		return false
+	case obs == obsUncached && m.st[key] == sYesWT && !writeThrough:
+		// inference switched off
+	case obs == obsUncached && m.st[key] == sYesWT && r.op.K == opAdd:
+		res.Failf("add-on-written-key", "the operation accepted before this one on the key succeeded, which leaves the key in a write-through cache (nothing can have evicted it), but DoAdd called the store instead of rejecting the duplicate :: %s", r)
+		return false
+	case obs == obsUncached && m.st[key] == sYesWT:
+		res.Failf("write-through-entry-missing", "the operation accepted before this one on the key succeeded, which leaves the key in a write-through cache (nothing can have evicted it), but this operation treated it as uncached :: %s", r)
+		return false
+	}
+	if !r.sweep {
+		if h.cfg.LRU && obs == obsUncached && m.wt[key] {
+			res.Class("lru-eviction-between-operations")
+		}
+		if r.op.K == opGet && m.deleted[key] {
+			res.Class("get-after-successful-delete")
+		}
+		labelOp(res, r, obs)
+		labelKey(res, h, key)
+	}
+	m.after(r, obs)
+	return true
+}
+
+// ---- sequential histories ----------------------------------------------------------------
+
 // doSeq runs one operation of a sequential history: it is the only one in
-// progress, and the store callbacks check that.
-func (h *harness) doSeq(r *opRec) {
+// progress, and the store callbacks check that. If its caller's context ended,
+// the worker may still be busy with it when the caller returns: the history
+// waits (quiescence: every worker idle) before it goes on.
+func (h *harness) doSeq(r *opRec, sched *vkit.Sched) {
 	e := h.env
 	e.mu.Lock()
 	e.cur = r.id
 	e.mu.Unlock()
 	h.do(r)
 	e.mu.Lock()
+	wait := r.cancelled
+	e.mu.Unlock()
+	if wait && sched != nil {
+		sched.MustQuiesce()
+	}
+	e.mu.Lock()
 	e.cur = -1
 	e.mu.Unlock()
+}
+
+func needsSched(ops []Op) bool {
+	for _, op := range ops {
+		if op.Cancel == cBefore || op.Cancel == cInside {
+			return true
+		}
+	}
+	return false
 }
 
 func ExecSeq(c Case) *vkit.Result {
@@ -981,85 +1324,30 @@ func ExecSeq(c Case) *vkit.Result {
 		res.Skip("malformed-config")
 		return res
 	}
+	var sched *vkit.Sched
+	if needsSched(c.Ops) {
+		sched = vkit.NewSched() // before the group: its workers belong to the tracked set
+	}
 	h := newHarness(c.Config, c.Faults)
 	defer h.stop()
 	e := h.env
 	e.seq = true
 	labelConfig(res, c.Config, h)
-	m := &seqModel{cfg: c.Config, st: make([]int, len(h.keys)), deleted: make([]bool, len(h.keys)), wt: make([]bool, len(h.keys))}
+	j := &judge{res: res, h: h, m: newModel(h)}
 	touched := make([]int, len(h.keys))
 	twice := false
-
-	// judge applies every oracle to one completed operation
-	judge := func(r *opRec) bool {
-		e.mu.Lock()
-		site, msg := e.site, e.msg
-		cur, exists := e.vals[r.kid]
-		e.mu.Unlock()
-		if r.pan != "" {
-			res.Failf("op-panic", "%s(key %s, hash %d) on a group of %d workers panicked: %s", opNames[r.op.K], r.kid, h.hashes[r.op.Key], c.Workers, r.pan)
-			return false
-		}
-		if site != "" {
-			res.Failf(site, "%s :: %s", msg, r)
-			return false
-		}
-		obs, site, msg := checkShape(r)
-		if site != "" {
-			res.Failf(site, "%s", msg)
-			return false
-		}
-		key := r.op.Key
-		if r.op.K == opGet && obs == obsCached {
-			if v := r.v.(Val); !exists || v != cur {
-				held := "nothing"
-				if exists {
-					held = fmt.Sprintf("%+v", cur)
-				}
-				res.Failf("coherence", "DoGet answered from the cache with %+v but the store holds %s for the key :: %s", v, held, r)
-				return false
-			}
-		}
-		switch {
-		case obs == obsCached && m.st[key] == sNo && m.deleted[key]:
-			res.Failf("delete-leaves-cache-entry", "the key was deleted successfully and not written since, yet the next operation found it in the cache :: %s", r)
-			return false
-		case obs == obsCached && m.st[key] == sNo:
-			res.Failf("phantom-cache-entry", "no completed operation can have put the key into the cache, yet the operation found it there :: %s", r)
-			return false
-		case obs == obsUncached && m.st[key] == sYes && r.op.K == opAdd:
-			res.Failf("add-on-cached-key", "the previous operation on the key found it in the cache and nothing can have evicted it since, but DoAdd called the store instead of rejecting the duplicate :: %s", r)
-			return false
-		case obs == obsUncached && m.st[key] == sYes:
-			res.Failf("cache-entry-lost", "the previous operation on the key found it in the cache and nothing can have evicted or deleted it since, but this operation treated it as uncached :: %s", r)
-			return false
-		}
-		if !r.sweep {
-			if c.LRU && obs == obsUncached && m.wt[key] {
-				res.Class("lru-eviction-between-operations")
-			}
-			if r.op.K == opGet && m.deleted[key] {
-				res.Class("get-after-successful-delete")
-			}
-			labelOp(res, r, obs)
-			labelKey(res, h, key)
-		}
-		m.after(r, obs)
-		return true
-	}
-
 	for i, op := range c.Ops {
-		if op.K < 0 || op.K >= nOpKinds || op.Key < 0 || op.Key >= len(h.keys) {
+		if !validOp(op, len(h.keys)) {
 			res.Skip("malformed-op")
 			continue
 		}
 		r := h.newRec(i, 0, op)
-		h.doSeq(r)
+		h.doSeq(r, sched)
 		touched[op.Key]++
 		if touched[op.Key] >= 2 {
 			twice = true
 		}
-		if !judge(r) {
+		if !j.one(r) {
 			return res
 		}
 	}
@@ -1071,8 +1359,8 @@ func ExecSeq(c Case) *vkit.Result {
 		// the closing probe of every key, with the fault plan switched off
 		r := h.newRec(100000+key, -1, Op{K: opGet, Key: key})
 		r.sweep = true
-		h.doSeq(r)
-		if !judge(r) {
+		h.doSeq(r, sched)
+		if !j.one(r) {
 			return res
 		}
 	}
@@ -1089,13 +1377,182 @@ func ExecSeq(c Case) *vkit.Result {
 	return res
 }
 
+// ---- controller-owned schedules: acceptance order -------------------------------------------
+
+func ExecGate(c CaseGate) *vkit.Result {
+	res := &vkit.Result{}
+	if !validConfig(c.Config) || len(c.Pre) > 100 || len(c.Queued) > 32 || !validOp(c.Gate, len(c.Keys)) || c.GateAt < 1 || c.GateAt > 4 {
+		res.Skip("malformed-config")
+		return res
+	}
+	sched := vkit.NewSched() // before the group: its workers belong to the tracked set
+	h := newHarness(c.Config, c.Faults)
+	defer h.stop()
+	e := h.env
+	labelConfig(res, c.Config, h)
+	j := &judge{res: res, h: h, m: newModel(h)}
+
+	// prologue: one call after the other
+	e.seq = true
+	for i, op := range c.Pre {
+		if !validOp(op, len(h.keys)) {
+			res.Skip("malformed-op")
+			continue
+		}
+		op.Cancel, op.CancelAt = cNever, 0
+		r := h.newRec(i, 0, op)
+		h.doSeq(r, sched)
+		if !j.one(r) {
+			return res
+		}
+	}
+	e.mu.Lock()
+	e.seq = false
+	e.mu.Unlock()
+
+	// the gated operation occupies its key's worker
+	type run struct {
+		r      *opRec
+		op     *vkit.Op
+		parked bool // it was parked (its request queued, or in progress) when the next call was made
+	}
+	var runs []*run
+	g := &run{r: h.newRec(1000, 1, c.Gate)}
+	g.r.gateAt = c.GateAt
+	g.op = sched.Go("gated-op", func() { h.do(g.r) })
+	sched.MustQuiesce()
+	e.mu.Lock()
+	gateHeld := e.gateReached && !g.op.Done()
+	gateCb := e.gateCb
+	e.mu.Unlock()
+	g.parked = !g.op.Done()
+	runs = append(runs, g)
+	if gateHeld {
+		res.Class("gate-in-" + cbNames[gateCb])
+	} else {
+		res.Class("gate-not-reached")
+	}
+	behindSameKey, adds := 0, 0
+	for i, op := range c.Queued {
+		if !validOp(op, len(h.keys)) {
+			res.Skip("malformed-op")
+			continue
+		}
+		q := &run{r: h.newRec(2000+i, 2+i, op)}
+		q.op = sched.Go(fmt.Sprintf("queued-op-%d", i), func() { h.do(q.r) })
+		sched.MustQuiesce()
+		q.parked = !q.op.Done()
+		q.r.early = !q.parked && !g.op.Done()
+		if gateHeld {
+			switch {
+			case q.parked && op.Key == c.Gate.Key:
+				behindSameKey++
+				res.Class("queued-behind-the-gated-operation-same-key")
+				if op.K == opAdd {
+					adds++
+					res.Class("add-queued-behind-an-operation-on-its-key")
+				}
+			case q.parked:
+				res.Class("queued-behind-the-gated-operation-other-key")
+			case q.r.early && op.Key == c.Gate.Key:
+				res.Class("returned-while-an-operation-on-its-key-is-gated")
+			default:
+				res.Class("ran-on-another-worker-while-gated")
+			}
+		}
+		if op.Cancel == cQueued {
+			if q.parked {
+				e.cancelRec(q.r)
+				sched.MustQuiesce()
+				res.Class("context-ended-while-queued")
+			} else {
+				res.Skip("cancel-while-queued-but-not-queued")
+			}
+		}
+		runs = append(runs, q)
+	}
+	h.openGate()
+	sched.MustQuiesce()
+	var stuck []string
+	for _, x := range runs {
+		if !x.op.Done() {
+			stuck = append(stuck, x.r.String())
+		}
+		if p := x.op.Panic(); p != nil {
+			return res.Failf("harness-panic", "%s panicked: %v", x.op.Name, p)
+		}
+	}
+	if len(stuck) > 0 {
+		h.cancel()
+		sched.MustQuiesce()
+		return res.Failf("lost-reply", "the gate is open and every worker is idle, yet %d caller(s) still wait for the result of an accepted operation: %s", len(stuck), strings.Join(stuck, " || "))
+	}
+	e.mu.Lock() // orders everything the callers and workers wrote before this point
+	e.mu.Unlock()
+
+	// operations on one key are applied in the order they were accepted
+	lastEnd := map[string]int64{}
+	lastRec := map[string]*opRec{}
+	for _, x := range runs {
+		r := x.r
+		if len(r.log) == 0 {
+			continue
+		}
+		if prev, ok := lastEnd[r.kid]; ok && r.log[0].tb < prev {
+			return res.Failf("application-order", "store callbacks of an operation accepted later ran before those of an operation on the same key accepted earlier: later %s || earlier %s", r, lastRec[r.kid])
+		}
+		lastEnd[r.kid], lastRec[r.kid] = r.log[len(r.log)-1].te, r
+	}
+	// ... and judged in that order. Operations on different keys may really have been applied
+	// in another order, which matters only where an LRU can evict.
+	j.m.voidAfterEach = c.LRU && c.Cap < int64(len(h.keys))
+	if j.m.voidAfterEach {
+		for i := range j.m.st {
+			if i != c.Gate.Key && j.m.st[i] >= sYesWT {
+				j.m.st[i] = sMaybe
+			}
+		}
+	}
+	touched := map[int]int{}
+	for _, x := range runs {
+		touched[x.r.op.Key]++
+		if !j.one(x.r) {
+			return res
+		}
+	}
+	e.mu.Lock()
+	hit := e.faultsHit
+	e.noFaults = true
+	e.seq = true
+	e.mu.Unlock()
+	j.m.voidAfterEach = false
+	for key := range h.keys {
+		r := h.newRec(100000+key, -1, Op{K: opGet, Key: key})
+		r.sweep = true
+		h.doSeq(r, sched)
+		if !j.one(r) {
+			return res
+		}
+	}
+	if hit > 0 {
+		res.Class("fault-hit")
+	}
+	if adds >= 2 {
+		res.Class("two-adds-queued-on-the-gated-key")
+	}
+	res.NonTrivial = gateHeld && behindSameKey >= 1
+	return res
+}
+
 // ---- concurrent callers ----------------------------------------------------------------------
 
 // valueInWindow: v was the store's value of the key at some instant of the
 // operation's call..return window, or was replaced only by an operation that
 // had not yet returned to its caller when this one was called ("after the last
 // completed operation": until the replacing operation completes, the old value
-// is the one the cache may hold).
+// is the one the cache may hold). An operation whose caller's context ended
+// returns to its caller before its worker is done with it, so its completion
+// is not observable: a value it replaced is accepted.
 func (e *env) valueInWindow(kid string, v *Val, t0, t1 int64) bool {
 	for _, he := range e.hist[kid] {
 		if v != nil && he.v != *v {
@@ -1107,7 +1564,7 @@ func (e *env) valueInWindow(kid string, v *Val, t0, t1 int64) bool {
 		if he.sup == 0 || he.sup >= t0 {
 			return true
 		}
-		if he.supRec != nil && (he.supRec.t1 == 0 || he.supRec.t1 >= t0) {
+		if he.supRec != nil && (he.supRec.t1 == 0 || he.supRec.t1 >= t0 || he.supRec.cancelled) {
 			return true
 		}
 	}
@@ -1137,7 +1594,7 @@ func ExecConc(c CaseConc) *vkit.Result {
 	if c.Procs >= 1 && c.Procs <= 64 {
 		defer runtime.GOMAXPROCS(runtime.GOMAXPROCS(c.Procs))
 	}
-	sched := vkit.NewSched()
+	sched := vkit.NewSched() // before the group: its workers belong to the tracked set
 	h := newHarness(c.Config, c.Faults)
 	defer h.stop()
 	e := h.env
@@ -1156,7 +1613,7 @@ func ExecConc(c CaseConc) *vkit.Result {
 				if h.ctx.Err() != nil {
 					return
 				}
-				if op.K < 0 || op.K >= nOpKinds || op.Key < 0 || op.Key >= len(h.keys) {
+				if !validOp(op, len(h.keys)) {
 					continue
 				}
 				r := h.newRec(ci*1000+j, ci, op)
@@ -1207,18 +1664,16 @@ func ExecConc(c CaseConc) *vkit.Result {
 
 	touched := make([]int, len(h.keys))
 	touchedBy := make([]map[int]bool, len(h.keys))
-	nops := 0
 	for ci := range c.Callers {
 		want := 0
 		for _, op := range c.Callers[ci] {
-			if op.K < 0 || op.K >= nOpKinds || op.Key < 0 || op.Key >= len(h.keys) {
+			if !validOp(op, len(h.keys)) {
 				res.Skip("malformed-op")
 				continue
 			}
 			want++
 		}
 		for _, r := range recs[ci] {
-			nops++
 			key := r.op.Key
 			if r.pan != "" {
 				return res.Failf("op-panic", "%s(key %s, hash %d) on a group of %d workers panicked: %s", opNames[r.op.K], r.kid, h.hashes[key], c.Workers, r.pan)
@@ -1296,7 +1751,7 @@ func ExecConc(c CaseConc) *vkit.Result {
 				if exists {
 					held = fmt.Sprintf("%+v", cv)
 				}
-				return res.Failf("coherence", "after all callers finished, DoGet answered from the cache with %+v but the store holds %s for the key; store history:%s :: %s", v, held, e.history(r.kid), r)
+				return res.Failf("coherence", "after all callers finished and every worker is idle, DoGet answered from the cache with %+v but the store holds %s for the key; store history:%s :: %s", v, held, e.history(r.kid), r)
 			}
 		}
 	}
@@ -1337,12 +1792,19 @@ func ExecConc(c CaseConc) *vkit.Result {
 
 var PartSeq = &vkit.Part[Case]{
 	Property: Property, Name: "sequential",
-	Rule:  "rapid: {map | LRU cap 1,2,100} x workers {1,2,3,7} x 1-6 keys of 17 Hashed2Int types (pool with MinInt64-, negative-, zero-, equal-hashed keys + random values), each key initially in the store or not; 1-30 operations of the 7 kinds (DoGet is the coherence probe: it is a generated operation, not run after every step) + one closing DoGet per key; fault plan: 0-8 of 'the n-th invocation of load/add/update/upsert/delete fails without effect, as plain error or as not-found'. Oracle per operation: callbacks follow the documented order, only inside the operation, never overlapping per key; every existing item handed to update/upsert and every value DoGet serves without load equals the store's current value; result = the operation's own last callback result; three-valued cache knowledge (certainly / maybe / certainly not cached, no assumption on which keys share a worker): certainly-uncached key served from cache (incl. after a successful delete) or certainly-cached key bypassed (incl. DoAdd reaching the store) is a violation. Non-trivial: >= 1 injected failure was hit and >= 1 key was touched by two operations; distinct = distinct case JSON",
+	Rule:  "rapid: {map | LRU cap 1,2,100} x workers {1,2,3,7} x 1-6 keys of 16 Hashed2Int types (pool with MinInt64-, negative-, zero-, equal-hashed keys + random values), each key initially in the store or not; 1-30 operations of the 7 kinds (DoGet is the coherence probe: it is a generated operation, not run after every step) + one closing DoGet per key; fault plan: 0-8 of 'the n-th invocation of load/add/update/upsert/delete fails without effect, as plain error or as not-found'; in half of the histories each operation's own context may end before the call or inside its 1st/2nd store callback (which still takes effect), and the history then waits for idle workers (vkit.Sched quiescence). Oracle per operation: callbacks follow the documented order (an operation may be abandoned only after its caller's context ended), only inside the operation, never overlapping per key; every existing item handed to update/upsert and every value DoGet serves without load equals the store's current value; result = the operation's own last callback result (or the caller's context error once its context ended); cache knowledge per key (certainly cached by observation / by the write-through policy, maybe, certainly not; no assumption on which keys share a worker): a certainly-uncached key served from cache (incl. after a successful delete) or a certainly-cached key bypassed (incl. DoAdd reaching the store) is a violation. Non-trivial: >= 1 injected failure was hit and >= 1 key was touched by two operations; distinct = distinct case JSON",
 	Quick: 20000, Thorough: 100000,
 	Gen: GenSeq, Exec: ExecSeq,
 }
 
-var concRule = "rapid: same configurations; 1-6 free-running callers x 3-10 operations, fault plan counted over the interleaved invocations, 0-3 Gosched inside each store callback, GOMAXPROCS 1/2/4/8. Completion is decided by vkit.Sched quiescence (a caller parked while every worker is idle is a lost reply). Oracle: per-key store callbacks never overlap and run inside their own operation; documented callback order and own result per operation; every existing item handed to update/upsert equals the store's value at that moment (exact: per-key callbacks are serial); a value served from the cache was the store's value at some instant of the DoGet or was replaced only by an operation not yet returned; closing DoGet sweep of all keys with exact coherence. Non-trivial: >= 1 injected failure hit and >= 1 key touched by two operations; distinct = distinct case JSON"
+var PartGate = &vkit.Part[CaseGate]{
+	Property: Property, Name: "gated",
+	Rule:  "rapid: same configurations; 0-3 prologue operations one after the other; then one operation whose 1st/2nd store callback blocks on a harness gate (its worker is occupied); then 1-4 operations (60% on the gated key) called one at a time, each on its own goroutine and confirmed parked or returned at vkit.Sched quiescence before the next, so the acceptance order is known; contexts end before the call / while queued / inside a callback; then the gate opens and everything must return. Oracle: per key the store callbacks run in acceptance order, and all oracles of the sequential part are applied in acceptance order (an add queued behind an operation that caches its key is a duplicate with zero store calls, an operation queued behind a successful delete finds the key uncached, ...); a DoGet served from the cache while an earlier operation is in flight is judged as a read of the last completed state. Where an LRU could evict (cap < keys) certainty about 'cached' is dropped after each step. Non-trivial: the gate was reached and >= 1 operation on the gated key was parked behind it; distinct = distinct case JSON",
+	Quick: 4000, Thorough: 12000,
+	Gen: GenGate, Exec: ExecGate,
+}
+
+var concRule = "rapid: same configurations; 1-6 free-running callers x 3-10 operations, each with its own context that may end before the call or inside a store callback, fault plan counted over the interleaved invocations, 0-3 Gosched inside each store callback, GOMAXPROCS 1/2/4/8. Completion is decided by vkit.Sched quiescence (a caller parked while every worker is idle is a lost reply). Oracle: per-key store callbacks never overlap and run inside their own operation (after it only when the caller's context ended); documented callback order and own result per operation; every existing item handed to update/upsert equals the store's value at that moment (exact: per-key callbacks are serial); a value served from the cache was the store's value at some instant of the DoGet or was replaced only by an operation not yet completed; closing DoGet sweep of all keys at quiescence with exact coherence. Non-trivial: >= 1 injected failure hit and >= 1 key touched by two operations; distinct = distinct case JSON"
 
 var PartConc = &vkit.Part[CaseConc]{
 	Property: Property, Name: "concurrent",
